@@ -45,6 +45,8 @@ static struct fss_stop_callback CB;
 static _Bool VF_CFG_inplace, VF_CFG_never;   /* stop_token_type_t<Receiver> is inplace_stop_token / can never be stopped */
 
 #include "vf.h"
+/* receiverToken_.stop_requested(): the parent's token may have fired at any time (not consulted by the pinned completion paths) */
+static _Bool EV_parent_stop_requested(void) { return VF_nondet_bool() ? 1 : 0; }
 static void vf_interfere(void) {}
 static _Bool vf_nb(void) { return VF_nondet_bool() ? 1 : 0; }
 
